@@ -65,29 +65,76 @@ Definition outcomes (ncalls : nat) (s : state) : sx :=
 
 (** ---- c12.script ---- *)
 
-Fixpoint interp (nconn ncalls : nat) (ops : list sx) (s : state) (regs : list sx) : option (state * list sx) :=
+(* caller contexts: 1 = deadline far later than the client timeout, 2 = deadline at a
+   third of it, 3 = cancel-only context, 4 = cancelled by the caller *)
+Fixpoint ctx_of (i : nat) (cx : list (nat * N)) : option N :=
+  match cx with
+  | [] => None
+  | (j, m) :: t => if Nat.eqb i j then Some m else ctx_of i t
+  end.
+
+(* which deadline ends an unanswered call, in thirds of the client timeout *)
+Definition expiry (m : N) : string :=
+  if N.eqb m 4 then "cancelled"
+  else let caller := if N.eqb m 3 then None else Some (if N.eqb m 2 then 1 else 30) in
+       if Nat.ltb (effective_deadline 3 caller) 3 then "caller" else "client".
+
+Definition out_result_ctx (cx : list (nat * N)) (i : nat) (r : call_pc) : sx :=
+  match r with
+  | CReturned RTimeout =>
+      match ctx_of i cx with
+      | None => SA "expired"
+      | Some m => SL [SA "expired"; SA (expiry m)]
+      end
+  | _ => out_result r
+  end.
+
+Definition start_labels (i : nat) : list label := [LRegister i; LPick i; LSendOk i].
+
+Fixpoint interp (nconn ncalls : nat) (ops : list sx) (s : state) (regs : list sx) (cx : list (nat * N))
+  : option (state * list sx * list (nat * N)) :=
   match ops with
-  | [] => Some (s, rev regs)
+  | [] => Some (s, rev regs, cx)
   | SL (SA nm :: args) :: t =>
       let is x := String.eqb nm x in
       if is "start" then
         match args with
-        | [SN i] => match exec nconn qid s [LRegister (small i); LPick (small i); LSendOk (small i)] with
-                    | Some s' => interp nconn ncalls t s' regs
+        | [SN i] => match exec nconn qid s (start_labels (small i)) with
+                    | Some s' => interp nconn ncalls t s' regs cx
                     | None => None
                     end
         | _ => None
         end
+      else if is "startctx" then
+        match args with
+        | [SN i; SN m] => match exec nconn qid s (start_labels (small i)) with
+                          | Some s' => interp nconn ncalls t s' regs ((small i, m) :: cx)
+                          | None => None
+                          end
+        | _ => None
+        end
+      else if is "cancel" then           (* the caller cancels its context: the select's Done branch *)
+        match args with
+        | [SN i] =>
+            match pc s (small i), ch s (small i) with
+            | CSent, None => match exec nconn qid s [LTimeout (small i); LUnregister (small i)] with
+                             | Some s' => interp nconn ncalls t s' regs ((small i, 4%N) :: cx)
+                             | None => None
+                             end
+            | _, _ => None
+            end
+        | _ => None
+        end
       else if is "finish" then
         match finish_all nconn ncalls s 0 with
-        | Some s' => interp nconn ncalls t s' regs
+        | Some s' => interp nconn ncalls t s' regs cx
         | None => None
         end
-      else if is "reg" then interp nconn ncalls t s (sx_nat (List.length (reg s)) :: regs)
+      else if is "reg" then interp nconn ncalls t s (sx_nat (List.length (reg s)) :: regs) cx
       else if is "drop" then
         match args with
         | SN k :: _ => match step nconn qid s (LDrop (small k)) with
-                       | Some s' => interp nconn ncalls t s' regs
+                       | Some s' => interp nconn ncalls t s' regs cx
                        | None => None
                        end
         | _ => None
@@ -95,7 +142,7 @@ Fixpoint interp (nconn ncalls : nat) (ops : list sx) (s : state) (regs : list sx
       else
         match emission nm args with
         | Some (k, p) => match exec nconn qid s [LEmit k p; LDeliver k] with
-                         | Some s' => interp nconn ncalls t s' regs
+                         | Some s' => interp nconn ncalls t s' regs cx
                          | None => None
                          end
         | None => None
@@ -109,9 +156,9 @@ Definition run_script (a : sx) : sx :=
   | SL [SN nc; SN n; SL ops] =>
       let nconn := small nc in
       let ncalls := small n in
-      match interp nconn ncalls ops init_state_without_pinger [] with
+      match interp nconn ncalls ops init_state_without_pinger [] [] with
       | None => sx_err "script blocked"
-      | Some (s, regs) => SL [outcomes ncalls s; SL regs]
+      | Some (s, regs, cx) => SL [SL (map (fun i => out_result_ctx cx i (pc s i)) (seq 0 ncalls)); SL regs]
       end
   | _ => sx_err "script"
   end.
@@ -392,8 +439,98 @@ Definition run_seq (a : sx) : sx :=
   | _ => sx_err "seq"
   end.
 
+(** ---- c12.auth: sequential scenario on connections made by NewConnection (with
+    or without an auth key), every call under a caller context whose deadline is
+    later than the client timeout; drops and recoveries.  Predicted: the result of
+    each reported call, the number of transport connections and of authentications. *)
+
+Definition all_healthy (nconn : nat) (s : state) : bool :=
+  forallb (fun k => status s k && negb (broken s k)) (seq 0 nconn).
+
+(* calls until every connection is established again: a call that picks the dead
+   connection fails and starts the reconnect, the others are answered *)
+Fixpoint recover (fuel nconn : nat) (s : state) (i ups : nat) : option (state * nat * nat) :=
+  if all_healthy nconn s then Some (s, i, ups) else
+  match fuel with
+  | O => None
+  | S f =>
+      match exec nconn qid s [LRegister i; LPick i] with
+      | Some s1 =>
+          match picked_conn (pc s1 i) with
+          | Some k =>
+              if broken s1 k
+              then match exec nconn qid s1 [LSendFail i; LUnregister i; LReconnectEnter k; LReconnectDone k] with
+                   | Some s2 => recover f nconn s2 (S i) (S ups)
+                   | None => None
+                   end
+              else match exec nconn qid s1 [LSendOk i; LEmit k (PAnswer (qid i) 0); LDeliver k; LRecv i; LUnregister i] with
+                   | Some s2 => recover f nconn s2 (S i) ups
+                   | None => None
+                   end
+          | None => None
+          end
+      | None => None
+      end
+  end.
+
+Fixpoint auth_acts (nconn : nat) (acts : list sx) (s : state) (i ups : nat) (outs : list sx)
+  : option (list sx * nat) :=
+  match acts with
+  | [] => Some (rev outs, ups)
+  | SL (SA nm :: args) :: t =>
+      let is x := String.eqb nm x in
+      if is "call" then          (* answered: Request, LiteServerGetTime, WaitMasterchainSeqno *)
+        match exec nconn qid s [LRegister i; LPick i] with
+        | Some s1 =>
+            match picked_conn (pc s1 i) with
+            | Some k =>
+                match exec nconn qid s1 [LSendOk i; LEmit k (PAnswer (qid i) 0); LDeliver k; LRecv i; LUnregister i] with
+                | Some s2 => auth_acts nconn t s2 (S i) ups (out_result (pc s2 i) :: outs)
+                | None => None
+                end
+            | None => None
+            end
+        | None => None
+        end
+      else if is "silent" then   (* not answered: the client timeout ends it *)
+        match exec nconn qid s [LRegister i; LPick i; LSendOk i; LTimeout i; LUnregister i] with
+        | Some s2 => auth_acts nconn t s2 (S i) ups (out_result_ctx [(i, 1%N)] i (pc s2 i) :: outs)
+        | None => None
+        end
+      else if is "drop" then
+        match args with
+        | SN k :: _ => match step nconn qid s (LDrop (small k)) with
+                       | Some s2 => auth_acts nconn t s2 i ups outs
+                       | None => None
+                       end
+        | _ => None
+        end
+      else if is "recover" then
+        match recover 64 nconn s i ups with
+        | Some (s2, i2, ups2) => auth_acts nconn t s2 i2 ups2 (SA "up" :: outs)
+        | None => None
+        end
+      else None
+  | _ => None
+  end.
+
+(* (nconn auth (act ...)) -> ((result ...) transport-connections authentications) *)
+Definition run_auth (a : sx) : sx :=
+  match a with
+  | SL [SN nc; SN au; SL acts] =>
+      let nconn := small nc in
+      match auth_acts nconn acts init_state 0 0 [] with
+      | Some (outs, ups) =>
+          let conns := nconn + ups in
+          SL [SL outs; sx_nat conns; sx_nat (if N.eqb au 0 then 0 else conns)]
+      | None => sx_err "auth blocked"
+      end
+  | _ => sx_err "auth"
+  end.
+
 Definition run (name : string) (a : sx) : sx :=
   if String.eqb name "c12.script" then run_script a
   else if String.eqb name "c12.race" then run_race a
   else if String.eqb name "c12.seq" then run_seq a
+  else if String.eqb name "c12.auth" then run_auth a
   else sx_err "unknown case kind".
